@@ -5,6 +5,8 @@ import (
 	"go/token"
 	"go/types"
 
+	"golang.org/x/tools/go/ssa"
+
 	"govc/smt"
 )
 
@@ -113,4 +115,44 @@ func (e *Exec) floatConvert(st *State, v *smt.Term, from, to types.Type) *smt.Te
 	}
 	unsupported("float conversion %s -> %s", from, to)
 	return nil
+}
+
+func init() {
+	type ifn = func(e *Exec, st *State, fn *ssa.Function, args []*smt.Term, resType types.Type, pos token.Pos) *smt.Term
+	reg := func(name string, f ifn) { intrinsics[name] = f }
+	reg("math.IsNaN", func(e *Exec, st *State, fn *ssa.Function, args []*smt.Term, resType types.Type, pos token.Pos) *smt.Term {
+		return smt.Raw("fp.isNaN", smt.Bool, ToFP(args[0]))
+	})
+	reg("math.IsInf", func(e *Exec, st *State, fn *ssa.Function, args []*smt.Term, resType types.Type, pos token.Pos) *smt.Term {
+		pinf := smt.Eq(args[0], smt.Const(64, 0x7ff0000000000000))
+		ninf := smt.Eq(args[0], smt.Const(64, 0xfff0000000000000))
+		s := args[1]
+		zero := smt.Const(64, 0)
+		return smt.Or(smt.And(smt.BVSle(zero, s), pinf), smt.And(smt.BVSle(s, zero), ninf))
+	})
+	reg("math.Inf", func(e *Exec, st *State, fn *ssa.Function, args []*smt.Term, resType types.Type, pos token.Pos) *smt.Term {
+		return smt.Ite(smt.BVSle(smt.Const(64, 0), args[0]), smt.Const(64, 0x7ff0000000000000), smt.Const(64, 0xfff0000000000000))
+	})
+	reg("math.Signbit", func(e *Exec, st *State, fn *ssa.Function, args []*smt.Term, resType types.Type, pos token.Pos) *smt.Term {
+		return smt.Eq(smt.Extract(args[0], 63, 63), smt.Const(1, 1))
+	})
+	reg("math.Abs", func(e *Exec, st *State, fn *ssa.Function, args []*smt.Term, resType types.Type, pos token.Pos) *smt.Term {
+		return smt.BVAnd(args[0], smt.Const(64, 0x7fffffffffffffff))
+	})
+	reg("math.Copysign", func(e *Exec, st *State, fn *ssa.Function, args []*smt.Term, resType types.Type, pos token.Pos) *smt.Term {
+		return smt.BVOr(smt.BVAnd(args[0], smt.Const(64, 0x7fffffffffffffff)), smt.BVAnd(args[1], smt.Const(64, 0x8000000000000000)))
+	})
+	round := func(mode string) ifn {
+		return func(e *Exec, st *State, fn *ssa.Function, args []*smt.Term, resType types.Type, pos token.Pos) *smt.Term {
+			return e.fpResult(st, smt.Raw("fp.roundToIntegral "+mode, FP64, ToFP(args[0])), 64)
+		}
+	}
+	reg("math.Ceil", round("RTP"))
+	reg("math.Floor", round("RTN"))
+	reg("math.Trunc", round("RTZ"))
+	reg("math.RoundToEven", round("RNE"))
+	reg("math.Round", round("RNA"))
+	reg("math.Sqrt", func(e *Exec, st *State, fn *ssa.Function, args []*smt.Term, resType types.Type, pos token.Pos) *smt.Term {
+		return e.fpResult(st, smt.Raw("fp.sqrt RNE", FP64, ToFP(args[0])), 64)
+	})
 }
